@@ -227,8 +227,15 @@ func (rt *runtime) panicRangeError(argumentList ...interface{}) *exception {
 // turn the uncaught exception into a Go panic.
 func uncaughtString(value Value) (text string) {
 	defer func() {
-		if recover() != nil {
-			text = "uncaught exception (the thrown value cannot be converted to a string)"
+		if caught := recover(); caught != nil {
+			switch caught.(type) {
+			case *exception, *Error, ottoError, Value:
+				text = "uncaught exception (the thrown value cannot be converted to a string)"
+			default:
+				// Not a JavaScript exception (the panic of an Interrupt function, a
+				// host function's Go panic, a Go runtime error): keep unwinding.
+				panic(caught)
+			}
 		}
 	}()
 	return value.string()
